@@ -446,8 +446,8 @@ fn main() {
         sum.model_requests = drv.as_ref().map(|d| d.requests).unwrap_or(0);
         sum.finish(&args);
     }
-    let n_short: usize = args.extra.get("nshort").and_then(|s| s.parse().ok()).unwrap_or(if args.thorough { 220 } else { 9 });
-    let n_long: usize = args.extra.get("nlong").and_then(|s| s.parse().ok()).unwrap_or(if args.thorough { 30 } else { 2 });
+    let n_short: usize = args.extra.get("nshort").and_then(|s| s.parse().ok()).unwrap_or(if args.thorough { 120 } else { 9 });
+    let n_long: usize = args.extra.get("nlong").and_then(|s| s.parse().ok()).unwrap_or(if args.thorough { 16 } else { 2 });
     let max_fail: usize = args.extra.get("maxfail").and_then(|s| s.parse().ok()).unwrap_or(3);
     let budget: u64 = args.extra.get("shrink").and_then(|s| s.parse().ok()).unwrap_or(if args.thorough { 180 } else { 40 });
     for (label, c) in corpus() {
